@@ -17,6 +17,12 @@ prop("C18", True,
      note="Trusted: go/types, go/ssa, VTA call graph (x/tools v0.29.0); filepath.Abs/Join/Rel/Clean behave as documented; reflection/unsafe create no relevant calls; file access inside dependencies behind the reader.Reader given to Parse is out of scope. Does not decide that the lexical test is correct for every spelling. One recorded known finding (OS filesystem loader reachable from `import x.yaml as …`).",
      design="DESIGN.md §3 C18")
 
+prop("C05", True,
+     technique="SSA dominance and CFG path search (claim-before-read, must-locked regions, Lock/Unlock and Go/Wait pairing, publication safety, flatten order, canonical keys, depth step)",
+     text="Decides structural necessary conditions of the import closure, not equality of results across schedules: in the collector (found by role: the pkg/parse function calling reader.Reader.ReadHashBranch) the claim in the retrieved map dominates the read and shares one critical section and one key with the membership test; every access to the shared map on a goroutine is must-locked; Lock/Unlock and errgroup Go/Wait pair on all paths; the already-claimed branch reads no field written after publication; flatten does not iterate the map, appends a file before its imports, walks imports with a forward index, returns early on an already-listed canonical key, and runs only after the root collector call returned; map keys are built only by the canonicaliser (which cleans the path and drops @version); depth is passed as current+1 and cut by current >= limit. Each clause, when broken, makes the result schedule-dependent, double-includes a file, loses termination on cycles, or cuts at the wrong depth.",
+     note="Trusted: go/ssa, errgroup.Wait joins all Go callbacks, sync.Mutex. Not decided: identical result under every interleaving (no happens-before model), source order of the import list produced by the pre-parse, the observed depth-limit/claim-order interaction described in DESIGN §3 C05.",
+     design="DESIGN.md §3 C05")
+
 for i in range(1, 21):
     pid = "C%02d" % i
     if pid not in P:
